@@ -455,9 +455,15 @@ func main() {
 		fmt.Fprintf(os.Stderr, "ENGINE: no runs executed\n")
 		exit(2)
 	}
-	os.MkdirAll(filepath.Join(verifDir, "evidence"), 0o755)
+	// a --patch run (mutant / seeded change, development aid) explores a tree that is not /repo's:
+	// it must not overwrite the evidence of the registered check
+	evDir := filepath.Join(verifDir, "evidence")
+	if *patch != "" {
+		evDir = filepath.Join(verifDir, "replays", "patched-evidence")
+	}
+	os.MkdirAll(evDir, 0o755)
 	eb, _ := json.MarshalIndent(ev, "", " ")
-	if err := os.WriteFile(filepath.Join(verifDir, "evidence", id+".json"), eb, 0o644); err != nil {
+	if err := os.WriteFile(filepath.Join(evDir, id+".json"), eb, 0o644); err != nil {
 		die(2, "write evidence: %v", err)
 	}
 	for _, f := range kf.Findings {
